@@ -25,6 +25,17 @@ def targeted(sch, r):
     out.append(['or', ['has', P, S('age')], ['gt', acc(P, 'age'), lit(gen.vlong(1))]])
     out.append(['and', ['not', ['has', P, S('age')]], ['gt', acc(P, 'age'), lit(gen.vlong(1))]])
     out.append(['eq', acc(['if', ['has', P, S('age')], P, P], 'age'), lit(gen.vlong(1))])
+    # a presence test that does NOT dominate the access: the capability must not leak out of !, ||, ==, an if-condition into its else
+    # branch, a set literal, ...
+    F, T = lit(gen.vbool(False)), lit(gen.vbool(True))
+    for g, A in ((['hasTag', P, lit(gen.vstr('k'))], ['eq', ['getTag', P, lit(gen.vstr('k'))], lit(gen.vstr('x'))]),
+                 (['has', P, S('age')], ['gt', acc(P, 'age'), lit(gen.vlong(1))]),
+                 (['has', acc(C, 'a.b'), S('c')], ['eq', acc(acc(C, 'a.b'), 'c'), lit(gen.vlong(1))])):
+        out += [['and', ['not', g], A], ['if', g, F, A], ['and', ['or', g, ['eq', P, P]], A], ['and', ['eq', g, F], A], ['or', g, A],
+                ['and', ['if', g, F, T], A], ['and', ['contains', ['mkset', g], F], A], ['and', ['or', ['and', g, F], T], A],
+                ['and', ['not', ['not', ['not', g]]], A], ['if', ['not', g], A, F], ['and', ['ne', g, T], A],
+                # and the positive forms, which must keep validating
+                ['and', g, A], ['if', g, A, F], ['and', ['and', g, T], A], ['and', ['not', ['not', g]], A]]
     # least upper bound of records of different width, the wider one in either branch, accessed without a guard
     narrow = ['mkrec', [S('a'), lit(gen.vlong(1))]]
     wide = ['mkrec', [S('a'), lit(gen.vlong(1))], [S('b'), lit(gen.vlong(2))]]
@@ -39,7 +50,7 @@ def targeted(sch, r):
 
 
 def run(ctx):
-    b = lib.standard_build(ctx, theorems=False)   # no Coq theorem for this property yet: see MANIFEST level
+    b = lib.standard_build(ctx)
     if not lib.require_builds(ctx, b):
         return
     r = ctx.rng
@@ -103,6 +114,26 @@ action view appliesTo { principal: [User], resource: [User], context: { flag: Bo
             n += 1
             p = ['policy', S('p'), 'permit', ['all'], ['all'], ['all'], ['conds', ['when', e]], ['annots']]
             cases.append('(case v%d validate %s %s %s %s)' % (n, S(fixed), mode, sx.dump(p), sx.dump(fenvs)))
+    # action groups in another namespace: the group's entity type differs from the member's (F43)
+    fixed2 = '''namespace NS2 { action b; action c in [b]; }
+namespace NS1 { entity U; action a in [NS2::Action::"c"] appliesTo { principal: [U], resource: [U], context: { flag: Bool } };
+                action z appliesTo { principal: [U], resource: [U], context: { flag: Bool } }; }
+'''
+    A_ = ['var', 'action']
+    BAD_ = ['gt', ['add', lit(gen.vstr('a')), lit(gen.vlong(1))], lit(gen.vlong(0))]
+    flag = ['access', ['var', 'context'], S('flag')]
+    u1 = gen.vent('NS1::U', 'u')
+    envs2 = ['envs'] + [['env', ['store', ['ent', u1, ['parents'], ['attrs'], ['tags']]], ['req', u1, gen.vent('NS1::Action', an), u1, gen.vrec([('flag', gen.vbool(fl))])]]
+                        for an in ('a', 'z') for fl in (True, False)]
+    for grp in (gen.vent('NS2::Action', 'b'), gen.vent('NS2::Action', 'c'), gen.vent('NS1::Action', 'z'), gen.vent('NS1::Action', 'a')):
+        for lhs in (A_, ['if', flag, A_, A_], ['access', ['mkrec', [S('k'), A_]], S('k')], lit(gen.vent('NS1::Action', 'a')),
+                    ['if', flag, lit(gen.vent('NS1::Action', 'a')), lit(gen.vent('NS1::Action', 'z'))]):
+            for g in (['in', lhs, lit(grp)], ['in', lhs, ['mkset', lit(grp)]], ['not', ['in', lhs, lit(grp)]], ['isIn', lhs, S('NS1::Action'), lit(grp)]):
+                for body in (['and', g, BAD_], ['if', g, BAD_, lit(gen.vbool(False))], ['or', ['not', g], BAD_]):
+                    for mode in ('strict', 'permissive'):
+                        n += 1
+                        p = ['policy', S('p'), 'permit', ['all'], ['all'], ['all'], ['conds', ['when', body]], ['annots']]
+                        cases.append('(case v%d validate %s %s %s %s)' % (n, S(fixed2), mode, sx.dump(p), sx.dump(envs2)))
     ctx.rule = ('random schemas (2-4 entity types with parents, required/optional attributes of every type incl. nested records, sets, entity '
                 'references and the four extension types, tags; 1-3 actions with applies-to lists and context records) x policies typed against '
                 'them (access paths through required attributes, has-guarded optional attributes, arithmetic, comparisons, sets, extension calls, '
